@@ -177,6 +177,37 @@ def main():
             print("HARNESS-ERROR: " + cr.harness_error, file=sys.stderr)
             return 2
 
+        # block processor on top of the same controlled pool, compressor failing on a chosen block: every call must return
+        bp_cfgs = []
+        if not cr.groups and cr.time_left() > 40:
+            bexe = sched.build_bp_explorer(sd)
+            scen = ["!1", "a1,!1,b1", "a2+q3,!2+q3,+q3", "+r20,!1,+s20,+t20"] if cr.quick else \
+                   ["!1", "!2", "a1,!1,b1", "a2+q3,!2+q3,+q3", "+r20,!1,+s20,+t20", "a1,b1,!1", "!1,a1,b1,+q3", "a2,a2,!1+q3", "F:!1+q3,a1"]
+            for wk in ((2,) if cr.quick else (1, 2, 3)):
+                for sc in scen:
+                    left = cr.time_left()
+                    if left < 20:
+                        cr.cap("deadline before block-processor failure scenario %s" % sc)
+                        break
+                    j, r = sched.explore(bexe, [wk, 3, sc], bound=-1 if wk < 3 else 2, deadline=max(10, left - 15))
+                    if j is None:
+                        raise RuntimeError("bp explorer failed: %s" % r.err[-400:])
+                    for k in tot:
+                        tot[k] += j[k]
+                    bp_cfgs.append({"workers": wk, "scenario": sc, "executions": j["executions"], "states": j["states"],
+                                    "outcomes": [o["result"] for o in j["outcomes"]], "capped": j["capped"]})
+                    if j["capped"]:
+                        cr.cap("block-processor failure scenario %s capped" % sc)
+                    if j["violation"] is not None:
+                        v = j["violation"]
+                        kind = {3: "deadlock", 4: "oracle", 5: "livelock"}.get(v["outcome"], "crash")
+                        cr.violation("C09|block-processor|%s|compressor failure" % kind,
+                                     "block processor on the controlled pool, %d workers, scenario %r (toy compressor fails on '!' blocks)\n%s\nschedule (thread ids): %s" % (
+                                         wk, sc, v["msg"], v["schedule_threads"]),
+                                     files={"case.json": json.dumps({"bp": True, "hargs": [wk, 3, sc], "violation": v}, indent=1),
+                                            "schedule.txt": " ".join(str(x) for x in v["schedule_choices"]) + "\n"})
+        cr.coverage["block_processor_failure_scenarios"] = bp_cfgs
+
         # free-running ThreadSanitizer pass over the same harness body (complement: unsynchronised accesses)
         tsan_runs = 0
         try:
